@@ -423,6 +423,28 @@ func runC02(c *fw.Ctx) {
 			}
 		}
 	}
+	// Part F: objects stored WITH contentEncoding=gzip (the client uploaded compressed bytes and said so): downloaded by
+	// a client that accepts gzip (bytes as stored) and by one that does not (decompressed on its behalf), through
+	// every URL form; payloads that compress well, so that stored and served lengths differ
+	plainF := []byte(strings.Repeat("compressible payload line\n", 400))
+	for _, store := range stores {
+		for _, proto := range []string{"multipart", "resumable"} {
+			for _, form := range []string{"json", "download", "public"} {
+				item++
+				if !c.Mine(item) {
+					continue
+				}
+				up := GOp{Kind: "Upload", Proto: proto, Bucket: "b1", Name: "enc/o.txt", Data: gcs.Gz(plainF), Meta: gcs.ObjMeta{ContentType: "text/plain", ContentEncoding: "gzip"}}
+				ops := append(append([]GOp(nil), setup...), up,
+					GOp{Kind: "Get", Bucket: "b1", Name: "enc/o.txt", Form: form},
+					GOp{Kind: "Get", Bucket: "b1", Name: "enc/o.txt", Form: form, AcceptGzip: true},
+					GOp{Kind: "GetMeta", Bucket: "b1", Name: "enc/o.txt"})
+				if ok, _ := tryGCS(c, "C02", gcsCase{Store: store, Ops: ops}, c02Tag); ok {
+					c.Outcome("gzip-encoded-object:" + form)
+				}
+			}
+		}
+	}
 	c.Bound("names", c02Names)
 	c.Bound("payload_sizes", func() []int {
 		var s []int
